@@ -9,26 +9,29 @@ pub struct VarExportSpec {
 }
 
 impl VarExportSpec {
-    pub fn apply_env(&self, env: &im::HashMap<&String, String>) -> Self {
+    pub fn apply_env(&self, env: &im::HashMap<&String, String>) -> anyhow::Result<Self> {
         let content = if let Some(content) = self.content.as_ref() {
             content.clone()
         } else {
             format!("${{{}}}", self.variable)
         };
 
-        let content =
-            Some(nested_env::expand_eval(content, env, nested_env::IfMissing::Empty).unwrap());
+        let content = Some(nested_env::expand_eval(
+            content,
+            env,
+            nested_env::IfMissing::Empty,
+        )?);
 
-        Self {
+        Ok(Self {
             variable: self.variable.clone(),
             content,
-        }
+        })
     }
 
     pub(crate) fn expand(
         export: Option<&Vec<VarExportSpec>>,
         env: &im::HashMap<&String, String>,
-    ) -> Option<Vec<VarExportSpec>> {
+    ) -> anyhow::Result<Option<Vec<VarExportSpec>>> {
         // what this does is, apply the env to the format as given by "export:"
         //
         // e.g., assuming `FOO=value` and FOOBAR=`other_value`:
@@ -42,6 +45,8 @@ impl VarExportSpec {
         //
         // ... to export `FOO=value`, `BAR=bar` and `FOOBAR=other_value`.
 
-        export.map(|exports| exports.iter().map(|entry| entry.apply_env(env)).collect())
+        export
+            .map(|exports| exports.iter().map(|entry| entry.apply_env(env)).collect())
+            .transpose()
     }
 }
